@@ -60,7 +60,7 @@ def run(tier, seed):
         kind = ["batch", "interval", "sequence", "uniform", "geometric"][i % 5]
         cap = 1 if kind == "sequence" else rng.choice([1, 2, 3, 5, 8])
         p = rng.choice([None, 0.0, 0.25, 0.5, 1.0]) if kind == "geometric" else None
-        n = rng.choice([cap, cap + 1, 2 * cap + 3, 40 if quick else 200])
+        n = rng.choice([cap, cap + 1, 2 * cap + 3, 40 if quick else 200, 150 if quick else 600])
         traces.append(GS.record_run(kind, cap, rng.random() < 0.6, p, n, rng.randrange(2 ** 31),
                                     pass_y_keyword=rng.random() < 0.3))
     fails, res = tracecheck.validate("Trace_Storages", traces, lambda t: len(t["ev"]), tag="c07tr")
